@@ -19,12 +19,17 @@ package cache
 //@   ensures [mu] c.mu != nil
 
 //@ func NewDispatcher(option DispatcherOption) (d *dispatcher)
+//@   modifies $opened[option.Store]
 //@   ensures [zones] d != nil && len(d.list) == d.zoneSize && d.zoneSize >= 1
 //@   ensures [limit] option.Size >= 1 ==> forall i int :: 0 <= i && i < len(d.list) ==> d.list[i].cache.MaxEntries >= 1
 //@   ensures [total] option.Size >= 1 ==> forall i int :: 0 <= i && i < len(d.list) ==> d.zoneSize * d.list[i].cache.MaxEntries <= option.Size
 //@   ensures [nonnil] forall i int :: 0 <= i && i < len(d.list) ==> d.list[i] != nil && d.list[i].cache != nil && d.list[i].mu != nil
 //@   ensures [distinct] forall i, j int :: 0 <= i && i < j && j < len(d.list) ==> d.list[i] != d.list[j]
 //@   ensures [hfp] d.hitForPass == option.HitForPass
+// C08: a configured store URL is the one opened, and what it yields becomes the dispatcher's store
+//@   ensures [nostore] option.Store == "" ==> d.store == nil
+//@   precall github.com/vicanso/pike/store.NewStore#0 [url] $arg0 == option.Store
+//@   ensures [store-wired] option.Store != "" ==> d.store == $opened[option.Store]
 //@   loop 0: modifies list[*]
 //@   loop 0: invariant [range] 0 <= i && i <= zoneSize && len(list) == zoneSize
 //@   loop 0: invariant [filled] forall k int :: 0 <= k && k < i ==> list[k] != nil && allocated(list[k]) && list[k].cache != nil && list[k].cache.MaxEntries == lruSize && list[k].mu != nil
@@ -190,6 +195,10 @@ package cache
 //@   ensures [tok]   $tok[hc] == 0
 //@   ensures [miss]  err != nil ==> hc.status == StatusUnknown
 //@   ensures [nostore] (hc.store == nil || len(hc.key) == 0) ==> hc.status == StatusUnknown && err == nil
+// C08: the record is looked up under the entry's own key, and an adopted record is adopted as it is
+//@   precall github.com/vicanso/pike/store.Store.Get#0 [own-key] $recv == hc.store && $arg0 == hc.key
+//@   ensures_local [restored] hc.status != StatusUnknown ==> hc.status == pStatus(contents(data)) && hc.createdAt == pCreated(contents(data))
+//@                      && hc.expiredAt == pExpired(contents(data)) && (hc.status == StatusHit ==> respIs(hc.response, pResp(contents(data))))
 
 // ---- persistence format (cache.go, http_cache.go, http_response.go) (C09) ---------------------
 
@@ -270,6 +279,10 @@ package cache
 //@   ensures [bodies] err == nil && len(data) != 0 ==> contents(resp.GzipBody) == rGz(contents(data)) && contents(resp.BrBody) == rBr(contents(data)) && contents(resp.RawBody) == rRaw(contents(data))
 //@   ensures [lens]   err == nil && len(data) != 0 ==> len(resp.GzipBody) == rGzTake(contents(data)) && len(resp.BrBody) == rBrTake(contents(data)) && len(resp.RawBody) == rRawTake(contents(data))
 
+// the response decoded from a record d has exactly the fields the parser functions compute from d
+//@ pred respIs(r *HTTPResponse, d Bytes) := blen(d) != 0 ==> r.CompressSrv == b2s(rSrv(d)) && r.CompressMinLength == rMin(d) && r.StatusCode == rCode(d)
+//@      && hdr(r.Header) == unjsonHdr(rHdr(d)) && contents(r.GzipBody) == rGz(d) && contents(r.BrBody) == rBr(d) && contents(r.RawBody) == rRaw(d)
+
 //@ func (hc *httpCache) Bytes() (data []byte, err error)
 //@   requires [recv] hc != nil && hc.mu != nil
 //@   requires [locked] anyheld(hc.mu)
@@ -288,6 +301,7 @@ package cache
 //@   ensures [resp] err == nil ==> hc.response != nil
 //@   ensures [short]  entryShort(contents(data)) ==> err != nil
 //@   ensures [fields] err == nil ==> hc.status == pStatus(contents(data)) && hc.createdAt == pCreated(contents(data)) && hc.expiredAt == pExpired(contents(data))
+//@   ensures [resp-fields] err == nil ==> respIs(hc.response, pResp(contents(data)))
 
 // one step of the sequential parser: a fixed-width number, or a length-delimited field, in front of any tail
 //@ lemma [u32-step] using cat-len, bytes-len, bytes-empty, bcat-empty, bcat-empty2, be32, take-cat, drop-cat, take-all, drop-all, drop-zero: forall v int, t Bytes {bcat(be32(v), t)} :: fits32(v) ==> de32(btake(bcat(be32(v), t), 4)) == v && bdrop(bcat(be32(v), t), 4) == t
@@ -315,6 +329,14 @@ package cache
 //@     rBr(encRespV(srv, min, filt, hj, code, gz, br, raw)) == br && rAfterBr(encRespV(srv, min, filt, hj, code, gz, br, raw)) == bcat(be32(uint32(blen(raw))), raw)
 //@ lemma [resp-roundtrip-raw] hide r* except rRawLen, rPreRaw, rRawTake, rRaw, rAfterRaw using cat-len, bytes-len, bytes-empty, be32, take-all, drop-all, u32-step, field-step, resp-roundtrip-br: forall srv Bytes, min int, filt Bytes, hj Bytes, code int, gz Bytes, br Bytes, raw Bytes {encRespV(srv, min, filt, hj, code, gz, br, raw)} :: fits32(blen(srv)) && fits32(min) && fits32(blen(filt)) && fits32(blen(hj)) && fits32(code) && fits32(blen(gz)) && fits32(blen(br)) && fits32(blen(raw)) ==>
 //@     rRaw(encRespV(srv, min, filt, hj, code, gz, br, raw)) == raw && rAfterRaw(encRespV(srv, min, filt, hj, code, gz, br, raw)) == bempty()
+
+// C08 end to end: what the decoder computes from the record the encoder wrote is the original entry, field by field
+//@ lemma [persist-restore] hide r*|p*|enc* using entry-roundtrip, resp-roundtrip-srv, resp-roundtrip-min, resp-roundtrip-filt, resp-roundtrip-hdr, resp-roundtrip-code, resp-roundtrip-gz, resp-roundtrip-br, resp-roundtrip-raw:
+//@     forall st int, srv Bytes, min int, filt Bytes, hj Bytes, code int, gz Bytes, br Bytes, raw Bytes, cr int, ex int ::
+//@     fits32(st) && in64(cr) && in64(ex) && fits32(blen(srv)) && fits32(min) && fits32(blen(filt)) && fits32(blen(hj)) && fits32(code) && fits32(blen(gz)) && fits32(blen(br)) && fits32(blen(raw)) && fits32(blen(encRespV(srv, min, filt, hj, code, gz, br, raw))) ==>
+//@     pStatus(encEntry(st, encRespV(srv, min, filt, hj, code, gz, br, raw), cr, ex)) == st && pCreated(encEntry(st, encRespV(srv, min, filt, hj, code, gz, br, raw), cr, ex)) == cr && pExpired(encEntry(st, encRespV(srv, min, filt, hj, code, gz, br, raw), cr, ex)) == ex && !entryShort(encEntry(st, encRespV(srv, min, filt, hj, code, gz, br, raw), cr, ex))
+//@     && rSrv(pResp(encEntry(st, encRespV(srv, min, filt, hj, code, gz, br, raw), cr, ex))) == srv && rMin(pResp(encEntry(st, encRespV(srv, min, filt, hj, code, gz, br, raw), cr, ex))) == min && rFilt(pResp(encEntry(st, encRespV(srv, min, filt, hj, code, gz, br, raw), cr, ex))) == filt && rHdr(pResp(encEntry(st, encRespV(srv, min, filt, hj, code, gz, br, raw), cr, ex))) == hj && rCode(pResp(encEntry(st, encRespV(srv, min, filt, hj, code, gz, br, raw), cr, ex))) == code
+//@     && rGz(pResp(encEntry(st, encRespV(srv, min, filt, hj, code, gz, br, raw), cr, ex))) == gz && rBr(pResp(encEntry(st, encRespV(srv, min, filt, hj, code, gz, br, raw), cr, ex))) == br && rRaw(pResp(encEntry(st, encRespV(srv, min, filt, hj, code, gz, br, raw), cr, ex))) == raw
 
 //@ func uint32ToBytes(value int) (out []byte)
 //@   nopanic
@@ -350,6 +372,10 @@ package cache
 //@   modifies $clock
 //@   nopanic
 //@   ensures [clock] $clock >= old($clock)
+// C08: what is written is the encoding of the entry as it is now, under the entry's own key, with the remaining lifetime as TTL
+//@   precall github.com/vicanso/pike/store.Store.Set#0 [record] $recv == hc.store && $arg0 == hc.key
+//@                      && contents($arg1) == encEntry(hc.status, (hc.response == nil) ? bempty() : encRespOf(hc.response), hc.createdAt, hc.expiredAt)
+//@   precall github.com/vicanso/pike/store.Store.Set#0 [ttl] $arg2 == wrap64(wrap64(hc.expiredAt - $clock) * 1000000000)
 
 //@ func (hc *httpCache) HitForPass(ttl int)
 //@   requires [recv] hc != nil && hc.mu != nil
@@ -499,6 +525,7 @@ package cache
 //@   nopanic
 //@   ensures  [removed] !shardOf(d, key).cache.dom[keyOf(key)]
 //@   precall github.com/vicanso/pike/store.Store.Delete#0 [under-lock] held(shardOf(d, key).mu) && !shardOf(d, key).cache.dom[keyOf(key)]
+//@   precall github.com/vicanso/pike/store.Store.Delete#0 [own-key] $recv == d.store && $arg0 == key
 //@   atunlock [gone]   !shardOf(d, key).cache.dom[keyOf(key)]
 //@   atunlock [others] forall k any :: k != keyOf(key) ==> shardOf(d, key).cache.dom[k] == at(lastlock, shardOf(d, key).cache.dom[k])
 //@                      && shardOf(d, key).cache.view[k] == at(lastlock, shardOf(d, key).cache.view[k])
@@ -583,13 +610,13 @@ package cache
 //@ func (ds *dispatchers) Reset(opts []DispatcherOption)
 //@   requires [recv] ds != nil
 //@   requires [registry] registryOK(ds)
-//@   modifies ds.m.dom, ds.m.vals
+//@   modifies ds.m.dom, ds.m.vals, $opened
 //@   ensures [registry] registryOK(ds)
 //@   loop 0: invariant [registry] registryOK(ds)
 //@   ensures [exact]     forall k any :: typeis(k, "string") ==> (ds.m.dom[k] <==> configuredName(opts, unbox(k, "string")))
 //@   ensures [survivors] forall k any :: old(ds.m.dom[k]) && ds.m.dom[k] ==> ds.m.vals[k] == old(ds.m.vals[k])
 //@   ensures [others]    forall k any :: !typeis(k, "string") ==> ds.m.dom[k] == old(ds.m.dom[k])
-//@   loop 0: modifies ds.m.dom, ds.m.vals
+//@   loop 0: modifies ds.m.dom, ds.m.vals, $opened
 //@   loop 0: invariant [idx]   -1 <= $idx && $idx < len(opts) && ds.m != nil
 //@   loop 0: invariant [keep]  forall k any :: typeis(k, "string") && !configuredName(opts, unbox(k, "string")) ==> !ds.m.dom[k]
 //@   loop 0: invariant [added] forall j int :: 0 <= j && j <= $idx ==> ds.m.dom[box(opts[j].Name)]
@@ -602,7 +629,8 @@ package cache
 //@ func NewDispatchers(opts []DispatcherOption) (ds *dispatchers)
 //@   ensures [fresh] fresh(ds) && ds.m != nil
 //@   ensures [registry] registryOK(ds)
-//@   loop 0: modifies ds.m.dom, ds.m.vals
+//@   modifies $opened
+//@   loop 0: modifies ds.m.dom, ds.m.vals, $opened
 //@   loop 0: invariant [idx] -1 <= $idx && $idx < len(opts) && ds != nil && fresh(ds) && ds.m != nil
 //@   loop 0: invariant [registry] registryOK(ds)
 
